@@ -846,11 +846,16 @@ Fixpoint insert_string (x : string) (l : list string) : list string :=
   | y :: r => match String.compare x y with Gt => y :: insert_string x r | _ => x :: l end
   end.
 
+Definition default_vparams : vparams := mkVparams false false None None None true None true.
+
+(* every view of every design document, with what a non-stale query without parameters answers *)
 Definition crash_ddocs_after (c : scase) (k : nat) : list string :=
   let s := sfinal_from store0 (firstn k (sc_steps c)) in
   fold_right insert_string []
     (map (fun v => match alookup N.eqb (vd_coll v) (s_colls s) with
-                   | Some p => (fst p ++ "/" ++ vd_ddoc v ++ "/" ++ vd_name v)%string
+                   | Some p => (fst p ++ "/" ++ vd_ddoc v ++ "/" ++ vd_name v ++ "="
+                                ++ String.concat "" (map (fun r => (render_vrow r ++ ";")%string)
+                                     (reduce_rows default_vparams (vd_map v) (select_rows default_vparams (vd_rows (update_view s v))))))%string
                    | None => "?"%string
                    end) (s_views s)).
 
